@@ -700,7 +700,7 @@ class Sim:
         scn = self.scn
         h = self.h
         dev_spec = scn["device"]
-        device = B.build_device(dev_spec, mesh_from=self.mesh_from)
+        device = B.build_device(dev_spec, mesh_from=self.mesh_from, history=scn.get("device_history"))
         h.device = device
         if device.terminals and not scn.get("allow_empty_terminal"):
             for ti in device.terminal_info():
